@@ -77,12 +77,15 @@ func pathOfD(v ssa.Value, d int) string {
 	case *ssa.TypeAssert:
 		return pathOfD(x.X, d+1)
 	case *ssa.Extract:
-		return pathOfD(x.Tuple, d+1) + fmt.Sprintf("#%d", x.Index)
+		if tup, ok := x.Tuple.Type().(*types.Tuple); ok && x.Index < tup.Len() && tup.At(x.Index).Name() != "" {
+			return pathOfD(x.Tuple, d+1) + "." + tup.At(x.Index).Name()
+		}
+		return pathOfD(x.Tuple, d+1) + fmt.Sprintf(".#%d", x.Index)
 	case *ssa.Alloc:
 		if x.Comment != "" {
-			return "&" + x.Comment
+			return x.Comment
 		}
-		return "&alloc"
+		return "alloc"
 	case *ssa.Phi:
 		if x.Comment != "" {
 			return "φ" + x.Comment
@@ -156,9 +159,10 @@ func fieldOfValue(v ssa.Value) *types.Var {
 // ---------------------------------------------------------------------------
 
 type callInfo struct {
-	QName  string       // qualified name of static callee or interface method; "" if dynamic
-	Short  string       // method / function short name
-	Recv   ssa.Value    // receiver value (nil for plain functions and dynamic calls)
+	QName  string        // qualified name of static callee or interface method; "" if dynamic
+	Alt    string        // interface methods: name after the interface that declares the method (embedding)
+	Short  string        // method / function short name
+	Recv   ssa.Value     // receiver value (nil for plain functions and dynamic calls)
 	Callee *ssa.Function // static callee, if any
 	Common *ssa.CallCommon
 	Dyn    ssa.Value // callee value for dynamic calls
@@ -172,14 +176,20 @@ func namedOf(t types.Type) *types.Named {
 	return n
 }
 
-func ifaceMethodQName(recvT types.Type, m *types.Func) string {
-	// Name the interface method after the interface type that declares it, so
-	// that embedded interfaces resolve to one name.
+// ifaceMethodDeclQName names an interface method after the interface type that
+// declares it (differs from the static receiver type under embedding).
+func ifaceMethodDeclQName(m *types.Func) string {
 	if sig, ok := m.Type().(*types.Signature); ok && sig.Recv() != nil {
 		if n := namedOf(sig.Recv().Type()); n != nil && n.Obj().Pkg() != nil {
 			return fmt.Sprintf("%s.(%s).%s", n.Obj().Pkg().Path(), n.Obj().Name(), m.Name())
 		}
 	}
+	return ""
+}
+
+// ifaceMethodQName names an interface method after the static type of the
+// receiver expression ("vfs.(File).Close" even though Close comes from io.Closer).
+func ifaceMethodQName(recvT types.Type, m *types.Func) string {
 	if n := namedOf(recvT); n != nil && n.Obj().Pkg() != nil {
 		return fmt.Sprintf("%s.(%s).%s", n.Obj().Pkg().Path(), n.Obj().Name(), m.Name())
 	}
@@ -201,6 +211,7 @@ func infoOfCommon(cc *ssa.CallCommon) callInfo {
 	ci := callInfo{Common: cc}
 	if cc.IsInvoke() {
 		ci.QName = ifaceMethodQName(cc.Value.Type(), cc.Method)
+		ci.Alt = ifaceMethodDeclQName(cc.Method)
 		ci.Short = cc.Method.Name()
 		ci.Recv = cc.Value
 		return ci
@@ -243,7 +254,8 @@ func CallTo(names ...string) M {
 		if cc == nil {
 			return false
 		}
-		return set[infoOfCommon(cc).QName]
+		ci := infoOfCommon(cc)
+		return set[ci.QName] || (ci.Alt != "" && set[ci.Alt])
 	}}
 }
 
